@@ -362,7 +362,10 @@ def stepOracles (c : Cfg) (s : Step) (d : Option Wl) (o : StepOut) : List (Strin
    | .upgradeBatch => [("C01.sts_upgrade_within_step", upgradeWithinStep c.rel s.batch d o),
                        ("C01.sts_upgrade_monotone", upgradeMonotone d o),
                        ("C07.sts_upgrade_suffices", upgradeSuffices c.rel s.batch d o)]
-   | .finalize => [("C05.sts_finalize_releases", finalizeReleases s d o)])
+   | .finalize => [("C05.sts_finalize_releases", finalizeReleases s d o),
+                   -- C11 / C18: the executor reports Completed (and drops its finalizer) exactly when this call returns ok
+                   ("C11.sts_finalize_ok_means_released", finalizeReleases s d o),
+                   ("C18.sts_finalize_ok_means_released", finalizeReleases s d o)])
 
 /-! ### C11 / C07 — the pods behind the readiness verdict -/
 
